@@ -213,7 +213,7 @@ def run(ctx: Ctx) -> None:
                        "stored = unpicklable element files / persisted dict entries, observed independently of pipefunc"]
     check_slices(ctx)
     scenarios = ["outer", "consumer", "reduceother", "internalfirst", "fanout", "mappedreducer"] if quick else \
-        ["outer", "zip", "consumer", "reduceother", "multi", "internalfirst", "fanout", "mappedreducer"]
+        ["outer", "zip", "consumer", "reduceother", "multi", "internalfirst", "fanout", "mappedreducer", "square"]
     storages = ["file_array", "dict", "shared_memory_dict"]
     traces = []
     for sc in scenarios:
@@ -246,10 +246,11 @@ def run(ctx: Ctx) -> None:
     for k, c in enumerate(cmulti[: (4 if quick else 30)]):
         traces.append(run_history(fan, c, storages[k % 3], pool=[None, "thread", "async"][k % 3], only=["f", "g"]))
     # learners: one SequenceLearner per function (and per key with split_independent_axes), executed element by element
-    for sc in (["outer", "consumer", "multi", "internalfirst"] if quick else ["outer", "zip", "consumer", "reduceother", "multi", "internalfirst"]):
+    for sc in (["outer", "consumer", "multi", "internalfirst", "square"] if quick else
+               ["outer", "zip", "consumer", "reduceother", "multi", "internalfirst", "square"]):
         scen, _, _ = export(ctx, sc) if sc not in ("outer", "consumer", "reduceother", "internalfirst") or True else (None, None, None)
         for variant in ("plain", "split"):
-            for k in range(2 if quick else 12):
+            for k in range((6 if sc == "square" else 2) if quick else 12):
                 traces.append(run_learners(scen, variant, ctx.seed * 100 + k))
     for t in traces:
         c = t["meta"]["case"]
